@@ -229,4 +229,13 @@ def ctxGuard : List Item → Bool
   | _ :: rest => ctxGuard rest
   | [] => true
 
+def itemNameOk : Item → Bool
+  | .op o => !isJump o.name
+  | .ljump r _ _ => isJump r.name || !ESV.Spec.opsEndFlow.contains r.name
+  | .label _ => true
+
+/-- a plain op is not called Jump (a Jump always carries its target, the resolver turns it into a label
+jump); the root of a label jump is Jump or an op that does not end the flow (Branch*, Case*, Call) -/
+def namesGuard (items : List Item) : Bool := items.all itemNameOk
+
 end ESV.Decomp
